@@ -508,7 +508,14 @@ def read_traces(tag):
 
 
 def conf(o, scheds, tag, **kw):
-    vlib.conformance(o, FAMILY, TRACE[0], tcfg, PKG, scheds, tag=tag, key=lambda t: t[1:], **kw)
+    try:
+        vlib.conformance(o, FAMILY, TRACE[0], tcfg, PKG, scheds, tag=tag, key=lambda t: t[1:], **kw)
+    except vlib.Infra as e:
+        # once a violation has been reproduced the verdict is VIOLATION; trouble in a later stage (for instance a
+        # rejection that depends on state left behind by other schedules and does not reproduce alone) does not mask it
+        if not o.violations:
+            raise
+        o.notes.append("stage %s after a reproduced violation: %s" % (tag, str(e)[:300]))
     check_anomalies(tag)
     check_anomalies(tag + "_re")
 
